@@ -45,6 +45,12 @@ POSITIONS = {
     "alter_default": ("CREATE TABLE t (c0 int, c1 varchar(10), c2 int);\nALTER TABLE t ADD CONSTRAINT d1 DEFAULT {L} FOR c1;", {}),
     "default_apos": ("CREATE TABLE t (c0 int, c1 varchar(10) DEFAULT {L}, c2 int);\n-- the next table isn't used yet\nCREATE TABLE zz (q int);", {}),
     "comment_apos": ("CREATE TABLE t (c0 int, c1 varchar(10) COMMENT {L}, c2 int);\n-- the next table isn't used yet\nCREATE TABLE zz (q int);", {}),
+    # a condition list that ends with an IN part (its text is assembled by a separate grammar action), inline and as a named table constraint
+    "check_and_in": ("CREATE TABLE t (c0 int, c1 varchar(10) CHECK (c1 <> {L} AND c0 IN (1, 2)), c2 int);", {}),
+    "check_and_in_named": ("CREATE TABLE t (c0 int, c1 varchar(10), c2 int, CONSTRAINT ck CHECK (c1 <> {L} AND c1 IN ('x', 'y')));", {}),
+    # the literal comes after a code line whose trailing comment holds a lone apostrophe (same statement / an earlier statement)
+    "default_after_apos": ("CREATE TABLE t (c0 int, -- the user's id\n c1 varchar(10) DEFAULT {L}, c2 int);", {}),
+    "comment_stmt_after_apos": ("CREATE TABLE zz (q int, -- the user's id\n r int);\nCREATE TABLE t (c0 int, c1 varchar(10) COMMENT {L}, c2 int);", {}),
     "type_enum": ("CREATE TYPE ty AS ENUM ({L}, 'z');", {}),
     "col_enum": ("CREATE TABLE t (c0 int, c1 ENUM({L}, 'z'), c2 int);", {"output_mode": "mysql"}),
     "location": ("CREATE TABLE t (c0 int, c1 varchar(10), c2 int) LOCATION {L};", {"output_mode": "hql"}),
@@ -255,6 +261,11 @@ def evaluate(case):
                         sym = "escaped-quote-placeholder-left-in-output"  # the internal stand-in for \' was not turned back
                     if case["pos"].startswith("alter_") and p.startswith("/0/alter") and o == "<absent>":
                         sym = "alter-statement-lost"  # the table is there, the ALTER statement that carries the literal left no trace
+                    if ptr.endswith("/columns/#len") and isinstance(e, list) and isinstance(o, list) and len(o) < len(e) \
+                            and [c.get("name") for c in o] == [c.get("name") for c in e][:len(o)]:
+                        sym = "columns-after-the-literal-lost"  # the statement is cut at the literal: the later columns are missing
+                    if ptr.endswith("/comments/#len") and isinstance(e, list) and isinstance(o, list) and o[:len(e)] == e:
+                        sym = "code-reported-as-comment"  # (where the script has no comment at all this shows as 'entity-added')
                     diffs.append(diff(ptr, sym, e, o))
                     break
                 for s in syms:
